@@ -285,6 +285,10 @@ class Session:
             # ... or edits the coefficient arrays of its dispersive element in place
             which, val = rng.choice((('dispersion', 2.0 ** -7 - 2.0 ** -9), ('dispersion', 2.0 ** -7), ('trace', 0.25), ('trace', 0.0)))
             self.caller('caller_update', ['T2'], lambda: getattr(p['T2'], which).__setitem__(1, val))
+        if rng.random() < 0.05:
+            # ... or assigns them anew as plain lists (later in-place edits then act on the lists)
+            self.caller('caller_update', ['T2'], lambda: (setattr(p['T2'], 'trace', [float(v) for v in np.asarray(p['T2'].trace)]),
+                                                          setattr(p['T2'], 'dispersion', [float(v) for v in np.asarray(p['T2'].dispersion)])))
         if rng.random() < 0.1 and len(p['P1'].tilt) > 0:
             # ... or trims the tilt that fit_tilt(inplace=True) recorded on its plane
             self.caller('caller_update', ['P1'], lambda: setattr(p['P1'].tilt[0], 'x', p['P1'].tilt[0].x + 2e-6))
@@ -452,6 +456,23 @@ def run(ctx):
         if not (np.allclose(after, before, rtol=1e-12) and np.allclose(own, ref5, rtol=1e-12)):
             ctx.violation({'clause': 'Memo', 'f': 'sample-of-a-copied-source', 'copied_with': how},
                           {'changed_by_the_original': not np.allclose(after, before, rtol=1e-12), 'ignores_its_own_attributes': not np.allclose(own, ref5, rtol=1e-12)}, case=None)
+    # what fit_tilt records for a plane does not depend on which OTHER planes were fitted earlier in the process: the same physical
+    # wavefront error sampled with square and with anamorphic pixels (same array shape, same row pixel scale) has the same tilt,
+    # whichever of the two planes is fitted first
+    for order in (('square', 'anamorphic'), ('anamorphic', 'square'), ('square', 'anamorphic')):
+        shape_ = tuple(int(v) for v in np.random.default_rng(ctx.seed + len(order[0])).choice((10, 12, 14), 2))
+        rr_, cc_ = lentil.helper.mesh(shape_)
+        rec = {}
+        for which in order:
+            px_ = (0.5, 0.5) if which == 'square' else (0.5, 0.125)
+            opd_ = 2e-7 * rr_ * px_[0] - 3e-7 * cc_ * px_[1]          # the same ramp in physical units
+            pl_ = lentil.Pupil(amplitude=np.ones(shape_), opd=opd_, pixelscale=px_, focal_length=4.0).fit_tilt()
+            rec[which] = (pl_.tilt[-1].x, pl_.tilt[-1].y, float(np.abs(pl_.opd).max()))
+        ctx.case(('fit-after-another-plane', order, shape_))
+        a_, b_ = rec['square'], rec['anamorphic']
+        if not (np.allclose(a_[:2], b_[:2], rtol=1e-9, atol=1e-18) and a_[2] < 1e-15 and b_[2] < 1e-15):
+            ctx.violation({'clause': 'Memo', 'f': 'fit_tilt-after-a-plane-of-the-same-shape', 'order': '-then-'.join(order)},
+                          {'recorded_square_pixels': a_, 'recorded_anamorphic_pixels': b_}, case=None)
     ctx.extra['events_reverse_session_order_fresh_process'] = len(events) - nfwd
     verdict = validate(ctx, events)
     report_bad(ctx, events, verdict)
